@@ -31,6 +31,7 @@
 (* follows the property, not the code.                                      *)
 (*                                                                         *)
 (* Deliberately unconstrained (Unconstrained(f, rq) / outcome sets):       *)
+(*   - float64 fields reading one of the big integer boundary texts        *)
 (*   - error texts, and which error is reported when several apply         *)
 (*   - an empty text "" in a path parameter or a JSON value (for header,  *)
 (*     cookie, query and form "" is PRESENT, see EmptyCapable) and texts   *)
@@ -53,11 +54,19 @@ Priority == <<"path", "form", "query", "cookie", "header", "json">>
 Sources  == {Priority[i] : i \in 1 .. 6}
 Rank(s)  == CASE s = "path" -> 1 [] s = "form" -> 2 [] s = "query" -> 3 [] s = "cookie" -> 4 [] s = "header" -> 5 [] s = "json" -> 6
 
-BaseKinds == {"bool", "int8", "int", "uint8", "uint", "float64", "string"}
-Kinds     == BaseKinds \cup {"*int", "*string", "[]int", "[]string"}
-Base(k)   == CASE k \in {"*int", "[]int"} -> "int" [] k \in {"*string", "[]string"} -> "string" [] OTHER -> k
-IsPtr(k)   == k \in {"*int", "*string"}
-IsSlice(k) == k \in {"[]int", "[]string"}
+SignedKinds   == {"int8", "int16", "int32", "int"}
+UnsignedKinds == {"uint8", "uint16", "uint32", "uint"}
+IntKinds      == SignedKinds \cup UnsignedKinds
+BaseKinds == {"bool", "float64", "string"} \cup IntKinds
+PtrKinds   == {"*int", "*string", "*int8", "*int16", "*int32", "*uint8", "*uint16", "*uint32"}
+SliceKinds == {"[]int", "[]string", "[]int8", "[]int16", "[]int32", "[]uint16", "[]uint32"}     \* []uint8 is []byte (raw body / base64): not a number list
+Kinds     == BaseKinds \cup PtrKinds \cup SliceKinds
+Base(k)   == CASE k \in {"*int", "[]int"} -> "int" [] k \in {"*string", "[]string"} -> "string"
+               [] k \in {"*int8", "[]int8"} -> "int8" [] k \in {"*int16", "[]int16"} -> "int16" [] k \in {"*int32", "[]int32"} -> "int32"
+               [] k = "*uint8" -> "uint8" [] k \in {"*uint16", "[]uint16"} -> "uint16" [] k \in {"*uint32", "[]uint32"} -> "uint32"
+               [] OTHER -> k
+IsPtr(k)   == k \in PtrKinds
+IsSlice(k) == k \in SliceKinds
 
 (***************************************************************************)
 (* Text and the conversion table ("usual Go text rules" = strconv.ParseBool *)
@@ -66,16 +75,42 @@ IsSlice(k) == k \in {"[]int", "[]string"}
 (* an error.  Values are written in Go's canonical text form               *)
 (* (FormatBool / FormatInt / FormatFloat 'g').                             *)
 (***************************************************************************)
-Text == {"0", "1", "-1", "300", "1.5", "true", "x", ""}
+SmallText == {"0", "1", "-1", "300", "1.5", "true", "x", ""}
 
-OkText(b) == CASE b = "bool"    -> {"0", "1", "true"}
-               [] b = "int8"    -> {"0", "1", "-1"}                       \* "300" overflows
-               [] b = "int"     -> {"0", "1", "-1", "300"}
-               [] b = "uint8"   -> {"0", "1"}                             \* "-1" invalid, "300" overflows
-               [] b = "uint"    -> {"0", "1", "300"}
-               [] b = "float64" -> {"0", "1", "-1", "300", "1.5"}
+(* Integer boundary texts: max, max+1, min, min-1, 2^bits of every width, and digit strings beyond 64 bits.  Fits(t) is   *)
+(* the set of integer kinds whose strconv.ParseInt/ParseUint(t, 10, bits) succeeds (int/uint are 64 bit: amd64/arm64);  *)
+(* every other integer kind gets a range/syntax ERROR -- never a truncated value.  TLC integers are 32 bit, so the     *)
+(* table is written out instead of computed.                                                                           *)
+S8 == {"int8"}  S16 == {"int8", "int16"}  S32 == {"int8", "int16", "int32"}
+U8 == {"uint8"} U16 == {"uint8", "uint16"} U32 == {"uint8", "uint16", "uint32"}
+Fits(t) == CASE t \in {"0", "1", "127"}                       -> IntKinds
+             [] t \in {"-1", "-128"}                           -> SignedKinds
+             [] t \in {"128", "255"}                           -> IntKinds \ S8
+             [] t = "-129"                                     -> SignedKinds \ S8
+             [] t \in {"256", "300", "32767"}                  -> IntKinds \ (S8 \cup U8)
+             [] t = "-32768"                                   -> SignedKinds \ S8
+             [] t \in {"32768", "65535"}                       -> IntKinds \ (S16 \cup U8)
+             [] t = "-32769"                                   -> SignedKinds \ S16
+             [] t \in {"65536", "70000", "2147483647"}         -> IntKinds \ (S16 \cup U16)
+             [] t = "-2147483648"                              -> SignedKinds \ S16
+             [] t \in {"2147483648", "4294967295"}             -> IntKinds \ (S32 \cup U16)
+             [] t = "-2147483649"                              -> {"int"}
+             [] t \in {"4294967296", "9223372036854775807"}    -> {"int", "uint"}
+             [] t = "-9223372036854775808"                     -> {"int"}
+             [] t \in {"9223372036854775808", "18446744073709551615"} -> {"uint"}
+             [] t \in {"-9223372036854775809", "18446744073709551616", "99999999999999999999999", "-99999999999999999999999"} -> {}
+             [] OTHER                                          -> {}
+BoundaryText == {"127", "128", "-128", "-129", "255", "256", "32767", "32768", "-32768", "-32769", "65535", "65536", "70000",
+                 "2147483647", "2147483648", "-2147483648", "-2147483649", "4294967295", "4294967296",
+                 "9223372036854775807", "9223372036854775808", "-9223372036854775808", "-9223372036854775809",
+                 "18446744073709551615", "18446744073709551616", "99999999999999999999999", "-99999999999999999999999"}
+Text == SmallText \cup BoundaryText
+
+OkText(b) == CASE b = "bool"    -> {"0", "1", "true"}                      \* every boundary text is a ParseBool error
+               [] b = "float64" -> {"0", "1", "-1", "300", "1.5"}          \* boundary texts: see Unconstrained (value rendering)
                [] b = "string"  -> Text
-ConvOk(b, t)  == t \in OkText(b)
+               [] OTHER         -> {t \in Text : b \in Fits(t)}
+ConvOk(b, t)  == IF b \in IntKinds THEN b \in Fits(t) ELSE t \in OkText(b)
 ConvVal(b, t) == IF b = "bool" THEN (IF t = "0" THEN "false" ELSE "true") ELSE t
 
 \* outcomes of one field
@@ -145,6 +180,7 @@ Unconstrained(f, rq) ==
         LET tg == f.tags[i]
             tx == IF tg.src = "form" THEN Vals(rq, "form", tg.name) \o Vals(rq, "query", tg.name) ELSE Vals(rq, tg.src, tg.name)
         IN  \/ \E j \in DOMAIN tx : tx[j] \notin Text \/ (tx[j] = "" /\ tg.src \notin EmptyCapable)
+                                       \/ (Base(f.kind) = "float64" /\ tx[j] \in BoundaryText)      \* float rendering of big numbers not modelled
             \/ tg.src = "json" /\ \E j \in DOMAIN tx : ~ConvOk(Base(f.kind), tx[j])
             \/ tg.src = "json" /\ ~IsSlice(f.kind) /\ Len(tx) > 1
 
@@ -199,7 +235,7 @@ MkTags(S, R, n, fi) == LET q == [i \in 1 .. 6 |-> Priority[7 - i]]          \* d
                        IN  SelectSeq([i \in 1 .. 6 |-> [src |-> q[i], name |-> TagName(q[i], n, fi), req |-> q[i] \in R]],
                                      LAMBDA t : t.src \in S)
 
-MCKinds == {"int", "uint8", "*string", "[]int"}
+MCKinds == {"int", "uint8", "*string", "[]int", "*int8", "[]uint16"}
 MCDef(k) == CASE Base(k) = "int" -> "300" [] Base(k) = "uint8" -> "1" [] Base(k) = "bool" -> "true" [] OTHER -> "x"
 MCFieldSet == {[kind |-> k, tags |-> MkTags(S, R, "a", 1), def |-> d] :
                   k \in MCKinds, d \in {<< >>, <<"1">>},
@@ -214,6 +250,7 @@ MCReqOf(v) == [body |-> "none",
 MCReqSet == {MCReqOf(v) : v \in [1 .. 6 -> {<< >>, <<"1">>}]}
             \cup {MCReqOf([i \in 1 .. 6 |-> IF i = k THEN <<"x">> ELSE o]) : k \in 1 .. 6, o \in {<< >>, <<"1">>}}
             \cup {MCReqOf([i \in 1 .. 6 |-> IF i = k THEN <<"">> ELSE o]) : k \in 2 .. 5, o \in {<< >>, <<"1">>}}   \* present but empty
+            \cup {MCReqOf([i \in 1 .. 6 |-> IF i = k THEN <<t>> ELSE << >>]) : k \in 1 .. 5, t \in {"127", "128", "65535", "65536"}}    \* width boundaries
             \cup {[body |-> "none", vals |-> <<[src |-> "query", name |-> "a", texts |-> <<"0", "1">>, lit |-> ""]>>]}
 
 \* the code-shaped interpreter is one of the behaviours the property allows (for every field/request of the family)
